@@ -9,7 +9,6 @@ pub mod bgp;
 pub mod ingress;
 pub mod bmp;
 pub mod rib;
-pub mod bgp;
 pub mod mrt;
 pub mod frim;
 pub mod bmp_http;
